@@ -203,6 +203,14 @@ def run_case(case: dict) -> dict:
                 res["status"] = "excluded"
                 res["excluded_by"] = "same-source-two-roles"
                 return res
+        if "const-cell-data" in excl:
+            for sub in (P, Q):
+                if sub["family"] == "c03":
+                    _d, cd, _e = c03._support(sub["stmts"])
+                    if any(not v for v in cd.values()):
+                        res["status"] = "excluded"
+                        res["excluded_by"] = "const-cell-data"
+                        return res
         probe(res, f"pair_{P['family']}_{Q['family']}")
         vp, vq = _inits(P), _inits(Q)
         cont = [(_containers(P, wc) | _containers(Q, wc)), _containers(P, wp), _containers(Q, wq)]
